@@ -14,6 +14,10 @@ Local Open Scope string_scope.
 Theorem C14_no_writable_static_storage : GenGlobals.mutable_globals = [].
 Proof. exact no_mutable_globals. Qed.
 Print Assumptions C14_no_writable_static_storage.
+(* and no call into libc functions with hidden static state (strtok, rand, localtime, setlocale, ...; `nm -u libeav.a` on this run) *)
+Theorem C14_no_hidden_libc_state : GenGlobals.unsafe_libc_calls = [].
+Proof. exact no_unsafe_libc_calls. Qed.
+Print Assumptions C14_no_hidden_libc_state.
 
 Theorem C14_schedule_independent :
   forall idn g tbl sc s t,
